@@ -9,6 +9,7 @@ import StepModel.Accessors
 import StepModel.GenCxxRulesLemmas
 import StepModel.GenCxxAgree
 import StepModel.GenCxxDedup
+import StepModel.GenCxxDeriveFull
 /-!
 # C02 — generated dictionary and classes mirror the EXPRESS schema
 
@@ -642,6 +643,37 @@ theorem C02_flags_derive_principal_rule (s : Schema) (f : Nat) (n p : String) (p
     exact hk i1 (by rw [q1]; exact h1) j1 (by rw [q1]; exact h2) x y (by rw [hsaeq]; exact hx) (by rw [hsaeq]; exact hy) hxy
   have := (applyDerived_on_head (derivedCalls s n) mid hkm).2.2 j (by rw [← q1]; exact hjh) a hsm
   rw [this, hdm]
+
+/-- **Which attributes of a fresh instance are flagged `_derive` (written `*`), for EVERY supertype graph** — several supertypes,
+    shared ancestors, parts of parts, any depth: exactly those the closed form `derivedIn` of the instance's entity names, i.e.
+    those some entity of the ancestry redeclares in a DERIVE clause (found through `populateAttrList`'s search).  Soundness is an
+    invariant of all constructors (`ctorWF_dinv`, `ctorNF_dinv`: no step but `MakeDerived` sets the flag, and every call of every
+    constructor that runs is in the closed form of the instance's entity); completeness is the entity's own calls on the head.
+    Hypotheses: resolved schema, the two decidable conditions on redeclarations (`C02_derived_calls_closed_form`), and
+    `HeadKeyInj`: the head's attributes are told apart by (owner, registered name). -/
+theorem C02_flags_derive_full {s : Schema} {rank : String → Nat} (wf : WF s rank) (rr : RedeclResolves s)
+    (r1 : RedeclNamesOneLine s) (n : String) (e : Entity) (hE : s.findE n = some e)
+    (hk : HeadKeyInj (ctorNF s (fuelOf s) n {}))
+    (l : List (SA × Bool × Bool)) (hl : instanceFlags s n = some l) :
+    ∀ a d r, (a, d, r) ∈ l → (d = true ↔ derivedIn s (fuelOf s) n a.name a.owner = true) := by
+  intro a d r hmem
+  unfold instanceFlags at hl
+  have hkey := C02_push_compares_descriptor
+  simp only [hkey, Option.some.injEq] at hl
+  subst hl
+  have hF : fuelOf s = (fuelOf s - 1) + 1 := by unfold fuelOf; omega
+  simp only [List.mem_filterMap] at hmem
+  obtain ⟨id, hid, ho⟩ := hmem
+  cases hobj : (ctorNF s (fuelOf s) n {}).objs[id]? with
+  | none => simp [hobj] at ho
+  | some o =>
+    simp only [hobj, Option.map_some, Option.some.injEq, Prod.mk.injEq] at ho
+    obtain ⟨h1, h2, _⟩ := ho
+    have hsa : saAt (ctorNF s (fuelOf s) n {}) id = some a := by simp [saAt, hobj, h1]
+    have hda : dAt (ctorNF s (fuelOf s) n {}) id = d := by simp [dAt, hobj, h2]
+    rw [← hda]
+    rw [hF] at hk hid hsa ⊢
+    exact flags_derive_full wf rr r1 C02_dedup_keeps_derivation (fuelOf s - 1) n e hE hk id hid a hsa
 
 /-- A derivation on a NON-principal path reaches the instance (since fix C02-11): `u SUBTYPE OF (c, b)`, `b` redeclares `SELF\a.x`
     as derived.  The part constructor of `b` marks its own copy of `a.x`, which the head rejected as a duplicate — but the
